@@ -300,9 +300,11 @@ class ManifestContext:
             audio=audio_adps, video=video)
         video.append_cgi_params(self.cgi_params.video)
         for audio in audio_adps:
-            audio.append_cgi_params(self.cgi_params.audio)
+            audio.append_cgi_params(self.with_injected_errors(
+                self.cgi_params.audio, 'aerr', opts.audioErrors, audio))
         for text in text_adps:
-            text.append_cgi_params(self.cgi_params.text)
+            text.append_cgi_params(self.with_injected_errors(
+                self.cgi_params.text, 'terr', opts.textErrors, text))
         if self.cgi_params.manifest:
             locationURL = flask.request.url
             if '?' in locationURL:
@@ -546,6 +548,27 @@ class ManifestContext:
             manifest=mft_cgi_params,
             patch=patch_cgi_params,
             time=clk_cgi_params)
+
+    def with_injected_errors(
+            self,
+            params: dict[str, str],
+            name: str,
+            errors: list[tuple[int, str]],
+            adp: AdaptationSet) -> dict[str, str]:
+        """
+        Returns CGI parameters in which the error positions use the
+        segment numbering of the Representations in this AdaptationSet
+        """
+        if not errors or not adp.representations:
+            return params
+        params = {**params}
+        params[name] = self.calculate_injected_error_segments(
+            errors,
+            self.now,
+            self.options.availabilityStartTime,
+            self.options.timeShiftBufferDepth,
+            adp.representations[0])
+        return params
 
     @staticmethod
     def calculate_injected_error_segments(
